@@ -98,8 +98,9 @@ def esc_sel(t):
     return t.replace('&', '&amp;').replace('<', '&lt;').replace('"', '&quot;')
 
 
-def insitu_stylesheet(exprs):
-    parts = ['<xsl:stylesheet version="1.0" xmlns:xsl="%s" xmlns:p="u1" xmlns:q="u2"><xsl:template match="/"><out>' % XSL,
+def insitu_stylesheet(exprs, strip=False):
+    parts = ['<xsl:stylesheet version="1.0" xmlns:xsl="%s" xmlns:p="u1" xmlns:q="u2">%s<xsl:template match="/"><out>'
+             % (XSL, '<xsl:strip-space elements="*"/>' if strip else ''),
              '<xsl:for-each select="//node()|//@*|/">']
     for i, e in enumerate(exprs):
         t = esc_sel(e)
@@ -109,33 +110,39 @@ def insitu_stylesheet(exprs):
         parts.append('<b><xsl:if test="boolean(%s)">T</xsl:if></b>' % t)
         parts.append('<v><xsl:value-of select="%s"/></v>' % t)
         parts.append('<a x="{%s}"/>' % t.replace('{', '{{').replace('}', '}}'))
+        parts.append('<a2 x="[{%s}]"/>' % t.replace('{', '{{').replace('}', '}}'))
         parts.append('<s><xsl:value-of select="string(%s)"/></s>' % t)
+        parts.append('<s2><xsl:value-of select="concat(\'[\', string(%s), \']\')"/></s2>' % t)
         parts.append('<t><xsl:variable name="v" select="%s"/><xsl:value-of select="string($v)"/></t>' % t)
         parts.append('</c>')
     parts.append('</xsl:for-each></out></xsl:template></xsl:stylesheet>')
     return ''.join(parts)
 
 
+WSDOC = R.make_doc([R.E('r', [('x', '1')], [' ', R.E('a', [('x', '2')], ['\n ', R.E('b', None, [' ', R.E('a', None, ['t', ' ']), '\n']), ' ', R.E('b', None, ['u']), ' ']),
+                               '\n', R.E('b', None, [' ', R.E('a', None, [' '])]), ' '])], name='WS')
+
+
 def insitu_shard(shard, nshards, tier):
     docs = G.docs()
     w = vlib.Worker('xdrv', stderr_path=os.path.join(vlib.BUILD, 'tmp', 'c11i.%d.err' % shard))
-    allc = [(fam, text, ast) for fam, text, ast in cases(tier) if fam in ('step1', 'binop', 'func', 'unary', 'union', 'filter', 'abbrev')
+    allc = [(fam, text, ast) for fam, text, ast in cases(tier) if fam in ('atom', 'step1', 'binop', 'func', 'unary', 'union', 'filter', 'abbrev')
             and "'" + '"' not in text]
     B = 40
     batches = [allc[i:i + B] for i in range(0, len(allc), B)]
     counts = {'insitu_observations': 0, 'insitu_transformations': 0, 'insitu_cases': 0}
     viols = []
 
-    def run(batch, d):
-        xsl = insitu_stylesheet([t for _, t, _ in batch])
+    def run(batch, d, strip=False):
+        xsl = insitu_stylesheet([t for _, t, _ in batch], strip)
         r = w.request('tr', xsl, d.to_xml())
         counts['insitu_transformations'] += 1
         if r[0] != '0':
             if len(batch) == 1:
                 return     # the expression does not compile / raises: the generic path decides that, not this property
             mid = len(batch) // 2
-            run(batch[:mid], d)
-            run(batch[mid:], d)
+            run(batch[:mid], d, strip)
+            run(batch[mid:], d, strip)
             return
         out = R.parse_xml(r[2])
         flagged = set()
@@ -146,8 +153,8 @@ def insitu_shard(shard, nshards, tier):
             f = {}
             for k in c.children:
                 if k.kind == R.ELEM:
-                    f[k.local] = k.attrs[0].value if k.local == 'a' else k.string_value()
-            counts['insitu_observations'] += 5
+                    f[k.local] = k.attrs[0].value if k.local in ('a', 'a2') else k.string_value()
+            counts['insitu_observations'] += 6
             fam, text, ast = batch[i]
             probs = []
             if f.get('i') != f.get('b'):
@@ -160,6 +167,8 @@ def insitu_shard(shard, nshards, tier):
                 probs.append('avt')
             if f.get('t') != f.get('s'):
                 probs.append('variable')
+            if f.get('a2') != f.get('s2'):
+                probs.append('avt-with-text')
             if probs and i not in flagged:
                 flagged.add(i)
                 viols.append(('insitu-%s|%s|%s' % (fam, '+'.join(probs), text), {'expr': text, 'doc': d.name, 'observed': f}))
@@ -170,6 +179,7 @@ def insitu_shard(shard, nshards, tier):
         counts['insitu_cases'] += len(batch)
         try:
             run(batch, docs[0])
+            run(batch, WSDOC, True)       # whitespace-only text at several depths, with xsl:strip-space
         except vlib.WorkerDied as wd:
             viols.append(('insitu|fatal|batch %d' % bi, {'exprs': [t for _, t, _ in batch][:5], 'stderr': wd.stderr_tail[-1500:]}))
     w.close()
